@@ -138,6 +138,7 @@ class Interp:
         self.fuel = fuel
         self.steps = 0
         self.fx = []            # (marker id, outputs delivered when it fired)
+        self.entries = []       # (id of a path-expression node, outputs delivered when its evaluation began)
         self.trace = []         # per delivered output: (len(fx), inputs pulled, ticks)
         self.delivered = 0
         self.ticks = 0
@@ -506,6 +507,7 @@ class Interp:
 
     def run_path(self, t, env, v):
         _, f, parts = t
+        self.entries.append((id(t), self.delivered))
         # f[x][y:z]? == f as $f | x as $x | y as $y | z as $z | $f | .[$x] | .[$y:$z]?
         for y in self.run(f, env, v):
             for chain in self.index_combos(parts, env, v):
@@ -657,6 +659,7 @@ class Interp:
             yield from self.run_break(t, env, v)
         elif k == "path":
             _, f, parts = t
+            self.entries.append((id(t), self.delivered))
             for (y, q) in self.paths(f, env, v, p):
                 for chain in self.index_combos(parts, env, v):
                     yield from self.paths_chain(chain, y, q)
@@ -800,6 +803,7 @@ class Interp:
             yield from self.update_if(conds, e, 0, env, v, u)
         elif k == "path":
             _, f, parts = t
+            self.entries.append((id(t), self.delivered))
             combos = Lazy(self.index_combos(parts, env, v))
 
             def inner(x):
